@@ -3,6 +3,8 @@
   `owed r a` is what holder `a` can claim, in atomics (whole units = owed / 10^18).
 -/
 import Krp.Lemmas.Reward
+import Krp.Props.C14
+import Krp.Props.C16
 namespace Krp
 open RewardSt
 
@@ -23,6 +25,27 @@ theorem C15_accrual_formula (r r' : RewardSt) (self : Addr) (tk dp : Res Addr) (
   rw [show r.globalIndex + k - r.hIdx a = (r.globalIndex - r.hIdx a) + k by omega, Nat.add_mul,
     Nat.mul_comm k]
   omega
+
+/-- **In every reachable state, "its balance" is the holder's bSei balance on the token's own
+    ledger.** From a wired genesis (C16's hypotheses), after any history of outside non-owner
+    transactions and environment events, an index update of the reward contract adds to every
+    holder exactly its *bSei token balance* times the reward delivered per bSei in supply —
+    whatever transfers, sends (to others or to itself), mints and burns the history contained. -/
+theorem C15_accrual_follows_bsei_holdings (s : Sys) (l : List Step)
+    (w : Wired s) (wf : s.bsei.WF) (hm : Mirror s.bsei s.reward bseiA rewardA [])
+    (hq : ∀ st ∈ l, QuietStep (ownersOf s) st) (hi : s.reward.Inv)
+    (self : Addr) (tk dp : Res Addr) (bb : Denom → Nat) (sender : Addr) (r' : RewardSt) (ms : List Msg)
+    (hsup : (s.steps l).bsei.supply ≠ 0)
+    (hx : rewardExec (s.steps l).reward self tk dp bb sender .updateGlobalIndex = .ok (r', ms)) (a : Addr) :
+    r'.owed a = (s.steps l).reward.owed a +
+      (s.steps l).bsei.bal a *
+        fromRatio (bb (s.steps l).reward.rewardDenom - (s.steps l).reward.prevRewardBalance) (s.steps l).bsei.supply := by
+  have mir := C16_reachable s l w wf hm hq
+  have inv := C14_reachable s l hi
+  have ht : (s.steps l).reward.totalBalance ≠ 0 := by rw [mir.2]; exact hsup
+  have f := (C15_accrual_formula _ r' self tk dp bb sender ms inv ht hx a).1
+  rw [mir.1 a, mir.2] at f
+  exact f
 
 /-- Splitting a holding over two accounts accrues exactly the same atomics in total. -/
 theorem C15_split (b1 b2 k : Nat) : (b1 + b2) * k = b1 * k + b2 * k := Nat.add_mul b1 b2 k
